@@ -136,12 +136,17 @@ JudgeSel(r) ==
        <<"SelectionAsModelled", Rset = {ord[k] : k \in K} /\ r.last = r.P[ord[SetMax(K)]]>>
      >>
 
+(* freshsame: for a contour computed on a model object with a history (an earlier contour,  *)
+(* then an in-place change of the model) - cell probabilities, region, fm, warning and      *)
+(* coordinates are bitwise those of a freshly constructed model with the current            *)
+(* parameters (TRUE for contours without history).  HDCCache.tla: UsesCurrentModel.         *)
 Clauses(r) ==
   IF r.exc # "" THEN << <<"UnexpectedException", FALSE>> >>
   ELSE IF r.kind = "sel" THEN JudgeSel(r)
+  ELSE IF ~r.freshsame /\ ~ShapeOk(r) THEN << <<"EqualsFreshModel", FALSE>> >>
   ELSE IF ~ShapeOk(r) THEN << <<"ArrayShape", FALSE>> >>
   ELSE IF r.calls # 1 THEN << <<"OneSelection", FALSE>> >>
-  ELSE Judge(r)
+  ELSE Judge(r) \o << <<"EqualsFreshModel", r.freshsame>> >>
 
 Verdict(r) == Failing(Clauses(r))
 
